@@ -2,7 +2,9 @@ package checks
 
 import (
 	"fmt"
+	"go/constant"
 	"go/token"
+	"go/types"
 	"sort"
 	"strings"
 
@@ -52,7 +54,7 @@ func zeroGuarded(fn *ssa.Function, b *ssa.BasicBlock, match func(slice map[ssa.V
 }
 
 func runC10(c *core.Ctx) {
-	c.Explanation = "Structural clauses of the test verdict, decided on SSA: (exitguard) both output branches of runTest reach `return nil` only behind the zero edge of a test of Statistics.Fails, and ErrExit reaches os.Exit(non-zero) in main; (failpair) after every ProcessTestSubroutine call the err != nil edge calls Counter.Fail and the recorded TestCase.Error derives from that err; (freshinterp) for ungrouped tests the interpreter passed to ProcessTestSubroutine is the result of setupInterpreter called inside the statement loop, TestProcessInit on it dominates the run, and setupInterpreter builds interpreter.New and re-injects testing variables/functions; (assertwrap) every assertion closure returns the error of its Assert* call, calls Fail exactly on the err != nil edge and Pass on the other; (globals) the package-level state written by anything reachable (CHA call graph) from the per-test entry points is exactly the reviewed set — a new global written during a test is state that can leak between tests; (counter) Pass/Fail/Skip increment their own field by one. Decides the structure that makes verdicts faithful and tests independent; not the semantics of coverage instrumentation."
+	c.Explanation = "Structural clauses of the test verdict, decided on SSA: (exitguard) both output branches of runTest reach `return nil` only behind the zero edge of a test of Statistics.Fails, and ErrExit reaches os.Exit(non-zero) in main; (failpair) after every ProcessTestSubroutine call the err != nil edge calls Counter.Fail and the recorded TestCase.Error derives from that err; (freshinterp) for ungrouped tests the interpreter passed to ProcessTestSubroutine is the result of setupInterpreter called inside the statement loop, TestProcessInit on it dominates the run, and setupInterpreter builds interpreter.New and re-injects testing variables/functions; (assertwrap) every assertion closure returns the error of its Assert* call, calls Fail exactly on the err != nil edge and Pass on the other; (assertname) the table entry `assert.x` runs the implementation Assert_x; (instrdup) no fresh node built by the coverage instrumentation holds an expression of the original tree (it would be evaluated twice under --coverage); (globals) the package-level state written by anything reachable (CHA call graph) from the per-test entry points is exactly the reviewed set — a new global written during a test is state that can leak between tests; (counter) Pass/Fail/Skip increment their own field by one. Decides the structure that makes verdicts faithful and tests independent; not the semantics of coverage instrumentation."
 	c.NotCovered = []string{"that coverage instrumentation preserves semantics (AST-to-AST equivalence is a value property)", "passed+failed+skipped = total as an arithmetic identity of the text report", "timing/timeouts"}
 	prog := c.Prog
 	all := prog.ModuleFuncs()
@@ -272,6 +274,46 @@ func runC10(c *core.Ctx) {
 			}
 		}
 		c.Floor("test.assertwrap", 16)
+		// ---- assertname: the entry "assert.x_y" of the table runs Assert_x_y (the entries of the literal are evaluated
+		// one after the other: the closures created since the previous map update belong to the key of the next one)
+		var pending []*ssa.Function
+		nNames := 0
+		for _, b := range af.Blocks {
+			for _, in := range b.Instrs {
+				switch t := in.(type) {
+				case *ssa.MakeClosure:
+					if fnc, ok := t.Fn.(*ssa.Function); ok {
+						pending = append(pending, fnc)
+					}
+				case *ssa.MapUpdate:
+					k, ok := t.Key.(*ssa.Const)
+					if !ok || k.Value == nil || k.Value.Kind() != constant.String {
+						pending = nil
+						continue
+					}
+					name := constant.StringVal(k.Value)
+					want := strings.ToUpper(name[:1]) + strings.ReplaceAll(name[1:], ".", "_")
+					for _, cl := range pending {
+						for _, cb := range cl.Blocks {
+							for _, cin := range cb.Instrs {
+								cal := core.StaticCallee(cin)
+								if cal == nil || cal.Pkg != af.Pkg || !strings.HasPrefix(cal.Name(), "Assert") {
+									continue
+								}
+								nNames++
+								if cal.Name() == want {
+									c.Discharge("test.assertname", name, cin.Pos(), "runs "+want)
+								} else {
+									c.Report("test.assertname", name, cin.Pos(), fmt.Sprintf("the test function %s is wired to %s instead of %s: the assertion it reports on is not the one the test wrote, so a test can be reported failed although its assertion holds (or passed although it does not)", name, cal.Name(), want))
+								}
+							}
+						}
+					}
+					pending = nil
+				}
+			}
+		}
+		c.Floor("test.assertname", 16)
 	}
 
 	// ---- counter
@@ -388,6 +430,7 @@ func runC10(c *core.Ctx) {
 	c.Floor("test.globals", 2)
 
 	checkInstrumentWriteBack(c)
+	checkInstrumentDuplicates(c)
 	checkTestTimeTreeWrites(c)
 	_ = all
 }
@@ -604,4 +647,73 @@ func treeOwner(prog *core.Program, fn *ssa.Function, v ssa.Value, depth int) (st
 		return "fresh", "all incoming nodes are fresh or context-owned"
 	}
 	return "unknown", "cannot be traced to an owner"
+}
+
+// checkInstrumentDuplicates (test.instrdup): coverage instrumentation adds marker statements next to the statements of
+// the program; the program's own statements and expressions stay where they are. A fresh syntax node built by the
+// instrumentation that holds an expression of the original tree makes that expression run twice under --coverage
+// (the original still runs in its place): a condition that calls a functional subroutine or sets re.group.* then
+// changes the verdict. Decided over the instrument* functions: no store into a field of a freshly allocated ast node
+// whose value is loaded from the node that is being instrumented.
+func checkInstrumentDuplicates(c *core.Ctx) {
+	prog := c.Prog
+	n := 0
+	for _, fn := range prog.ModuleFuncs("interpreter") {
+		if fn.Pkg == nil || fn.Pkg.Pkg.Path() != interpPkg || !strings.HasPrefix(fn.Name(), "instrument") {
+			continue
+		}
+		n++
+		found := 0
+		for _, b := range fn.Blocks {
+			for _, in := range b.Instrs {
+				st, ok := in.(*ssa.Store)
+				if !ok {
+					continue
+				}
+				fa, ok := st.Addr.(*ssa.FieldAddr)
+				if !ok {
+					continue
+				}
+				al, ok := fa.X.(*ssa.Alloc)
+				if !ok || !strings.HasPrefix(core.NamedTypePkgName(al.Type().(*types.Pointer).Elem()), astPkgPath+".") {
+					continue
+				}
+				// the stored value: an expression / statement loaded from a parameter-rooted node
+				v := st.Val
+				for {
+					if mi, ok := v.(*ssa.MakeInterface); ok {
+						v = mi.X
+						continue
+					}
+					if ci, ok := v.(*ssa.ChangeInterface); ok {
+						v = ci.X
+						continue
+					}
+					break
+				}
+				ld, ok := v.(*ssa.UnOp)
+				if !ok || ld.Op != token.MUL {
+					continue
+				}
+				root, path := chainOf(ld)
+				if _, isParam := root.(*ssa.Parameter); !isParam || len(path) == 0 {
+					if ta, isTA := root.(*ssa.TypeAssert); !isTA || len(path) == 0 {
+						continue
+					} else if _, isParam := ta.X.(*ssa.Parameter); !isParam {
+						continue
+					}
+				}
+				if path[len(path)-1] == "Meta" || path[len(path)-1] == "Token" {
+					continue
+				}
+				found++
+				key := fmt.Sprintf("%s|%s.%s <- %s", fn.Name(), core.NamedTypeName(al.Type().(*types.Pointer).Elem()), core.FieldOf(fa).Name(), strings.Join(path, "."))
+				c.Report("test.instrdup", key, st.Pos(), fmt.Sprintf("%s builds a new %s whose %s is the %s of the node being instrumented, and the original stays in place: under --coverage that expression is evaluated twice, so a condition with an effect (a functional subroutine that counts or logs, a regular expression that sets re.group.*) gives another verdict with coverage than without", fn.Name(), core.NamedTypeName(al.Type().(*types.Pointer).Elem()), core.FieldOf(fa).Name(), strings.Join(path, ".")))
+			}
+		}
+		if found == 0 {
+			c.Discharge("test.instrdup", fn.Name(), fn.Pos(), "builds no node that holds a part of the original tree")
+		}
+	}
+	c.Floor("test.instrdup", 8)
 }
